@@ -650,6 +650,18 @@ func StringProgs() []Prog {
 			}
 			return ""
 		}),
+		one("RuneFrom(xy, 120 tables)", "str", func() *rapid.Generator[rune] {
+			var tabs []*unicode.RangeTable
+			for r := rune(0x4E00); r < 0x4E00+120; r++ {
+				tabs = append(tabs, &unicode.RangeTable{R16: []unicode.Range16{{Lo: uint16(r), Hi: uint16(r), Stride: 1}}})
+			}
+			return rapid.RuneFrom([]rune{'x', 'y'}, tabs...)
+		}, func(r rune) string {
+			if r != 'x' && r != 'y' && (r < 0x4E00 || r >= 0x4E00+120) {
+				return "rune neither in the set nor in the tables"
+			}
+			return ""
+		}),
 		one("RuneFrom(x,Lu)", "str", func() *rapid.Generator[rune] { return rapid.RuneFrom([]rune{'x'}, unicode.Lu) }, func(r rune) string {
 			if r != 'x' && !unicode.Is(unicode.Lu, r) {
 				return "rune neither in the set nor in the table"
@@ -658,7 +670,9 @@ func StringProgs() []Prog {
 		}),
 	}
 	for _, expr := range []string{`abc`, `[ab]{2,3}c?`, `a|bc|d`, `x*`, `y+z`, `^a+$`, `(?i)go`, `\bfoo\b`, `[^a]`, `.`, `(?s).`, `a{0}`, `(a|b)*c`, `\d{3}-\w`, `[[:^alpha:]]`, `^$`, `a$b`, `\pN\PN`, `[α-ω]+`, `\x00`,
-		`[\x{D7F0}-\x{D80F}]+`, `\pC`, `\p{Cs}?a`, `[^\x{0}-\x{D7FF}\x{E000}-\x{10FFFF}]|b`, `\PL{2}`} {
+		`[\x{D7F0}-\x{D80F}]+`, `\pC`, `\p{Cs}?a`, `[^\x{0}-\x{D7FF}\x{E000}-\x{10FFFF}]|b`, `\PL{2}`,
+		// character classes that contain nothing at all, in expressions that still have matches
+		`ab|[^\s\S]`, `x[^\s\S]*`, `x\P{Any}?`, `[^\x00-\x{10FFFF}]|c`} {
 		expr := expr
 		re := regexp.MustCompile(expr)
 		ps = append(ps,
